@@ -47,6 +47,8 @@ def run(ctx, col, tier):
     ignoredparam.run(ctx, col, ('swcgeom.transforms.geometry', 'swcgeom.utils.transforms', 'swcgeom.transforms.base'))
     from ..rules import smalllints
     smalllints.run_falsy(ctx, col, ('swcgeom.transforms.geometry', 'swcgeom.utils.transforms'))
+    from ..rules import colname as _colname
+    _colname.run(ctx, col, ('swcgeom.transforms.geometry',))
     col.guard(anchored, ctx, col)
     col.guard(shapes, ctx, col)
     col.guard(conj, ctx, col)
